@@ -27,7 +27,7 @@ def rt(tier):
     return [{'VF_CASE': 0, 'VF_KS': ks, 'VF_NV': nv, 'VF_ND': nd, 'VF_FL': fl} for (ks, nv, nd, fl) in combos]
 OBLIGATIONS = [
     dict(COMMON, name='R1.roundtrip', params_quick=rt('quick'), params_thorough=rt('thorough')),
-    dict(COMMON, name='R5.blob-width', params_quick=[{'VF_CASE': 3, 'VF_NV': n} for n in (0, 3, 8, 9)], params_thorough=[{'VF_CASE': 3, 'VF_NV': n} for n in range(0, 17)]),
+    dict(COMMON, name='R5.blob-width', params_quick=[{'VF_CASE': 3, 'VF_NV': n} for n in (0, 3, 8, 9)], params_thorough=[{'VF_CASE': 3, 'VF_NV': n} for n in range(0, 16)]),
     dict(COMMON, name='R3.version-gate', params_quick=[{'VF_CASE': 1, 'VF_RECREATE': 0}, {'VF_CASE': 1, 'VF_RECREATE': 1}]),
     dict(COMMON, name='R4.lock-gate', params_quick=[{'VF_CASE': 2}]),
 ]
